@@ -7,6 +7,7 @@ import (
 
 	"github.com/refraction-networking/uquic/internal/protocol"
 	"github.com/refraction-networking/uquic/internal/qerr"
+	"github.com/refraction-networking/uquic/internal/verifhook"
 	"github.com/refraction-networking/uquic/internal/wire"
 )
 
@@ -93,6 +94,7 @@ func (m *incomingStreamsMap[T]) AcceptStream(ctx context.Context) (T, error) {
 			break
 		}
 		m.mutex.Unlock()
+		verifhook.Point("streams.accept.beforeWait")
 		select {
 		case <-ctx.Done():
 			return *new(T), ctx.Err()
